@@ -230,7 +230,7 @@ func c09Scripts(thorough bool) (out []string, tags []string) {
 				// Shutdown: needs the gate (before it, Shutdown is just another early caller: covered by C08)
 				st = base()
 				if st.ready {
-					for _, variant := range []string{"ok", "status", "cancel", "error-message"} {
+					for _, variant := range []string{"ok", "status", "cancel", "error-message", "vanish", "cut-response"} {
 						st := base()
 						ops := append(st.ops, "shutdown:9", fmt.Sprintf("w:%d", st.written+1), "call:92:2:1092", "z", fmt.Sprintf("n:%d", st.written+1))
 						switch variant {
@@ -242,9 +242,19 @@ func c09Scripts(thorough bool) (out []string, tags []string) {
 							ops = append(ops, "ps:4:@9:100", "r:9", "close")
 						case "cancel":
 							ops = append(ops, "cancel:9", "r:9", "ps:4:@9:0", "close")
+						case "vanish":
+							// the peer disappears at the frame boundary right after the client's CloseConnection: no response was received,
+							// so this is a failure of the connection, not its graceful end
+							ops = append(ops, "pc", "r:9")
+						case "cut-response":
+							ops = append(ops, "pcut:4:4:@9:0", "r:9")
 						}
 						ops = append(ops, st.returns()...)
-						ops = append(ops, "r:92", "pc", "rc")
+						if variant == "vanish" || variant == "cut-response" {
+							ops = append(ops, "r:92", "rc")
+						} else {
+							ops = append(ops, "r:92", "pc", "rc")
+						}
 						emit("shutdown-"+variant, ops)
 					}
 				}
